@@ -273,7 +273,7 @@ theorem macro_step (hw : T.WFInv) (nroot fuel : Nat) (IH : AllSpecs T nroot fuel
   intro buf tok math st hg hb ht
   simp only [expandMacro]
   apply Post_get_bind
-  have hb' := BL_skipSpace T _ _ hb
+  have hb' := BL_skipSpaceStopLang T _ _ hb
   cases hmac : lookupMacro st tok.txt with
   | none =>
     dsimp only
@@ -311,20 +311,20 @@ private theorem G_extract (nroot : Nat) (s : PState) (e : List Tok) (h : G T nro
 private def argsTail (T : PTables) (fuel : Nat) (mac : MacroDef) (r : Args × Buf) (start : Nat) : M (List Tok × Buf) :=
   if mac.handler != .none then do
     let h ← callHandler T fuel mac.handler r.2 mac r.1.args start
-    pure (mkAction start :: h, r.2)
+    pure (mkAction start :: h ++ r.1.langs, r.2)
   else
     match generateReplacements r.1.args mac.repl start with
     | none => M.crash "parser.py:generate_replacements:arguments[tok.arg-1]"
-    | some g => pure (mkAction start :: g, r.2)
+    | some g => pure (mkAction start :: g ++ r.1.langs, r.2)
 
 private theorem argsTail_spec (nroot fuel : Nat) (IH : AllSpecs T nroot fuel) (st s : PState) (mac : MacroDef)
     (r : Args × Buf) (start : Nat) (hs : Good T nroot st s) (hmac : macroToksOk T mac = true)
     (ha : ∀ a ∈ r.1.args, BL T st.latex.length a) (hr : BL T st.latex.length r.2)
-    (hst : start < st.latex.length) :
+    (hst : start < st.latex.length) (hlg : BL T st.latex.length r.1.langs) :
     Post (argsTail T fuel mac r start s) (fun r st' =>
       Good T nroot st st' ∧ BL T st.latex.length r.1 ∧ BL T st.latex.length r.2) := by
   have hl : s.latex = st.latex := hs.2.1
-  rw [← hl] at ha hr hst ⊢
+  rw [← hl] at ha hr hst hlg ⊢
   have hact := OTok_BTok T _ _ (OTok_mkAction T _ _ hst)
   simp only [argsTail]
   by_cases hc : (mac.handler != Handler.none) = true
@@ -333,25 +333,26 @@ private theorem argsTail_spec (nroot fuel : Nat) (IH : AllSpecs T nroot fuel) (s
     · exact IH.handler mac.handler r.2 mac r.1.args start s hs.1 hr ha hst
     · intro a s' h'
       apply Post_pure
-      exact ⟨Good_trans T nroot _ _ _ hs h'.1, (BL_cons T _ _ _).2 ⟨hact, h'.2⟩, hr⟩
+      exact ⟨Good_trans T nroot _ _ _ hs h'.1,
+        (BL_cons T _ _ _).2 ⟨hact, (BL_append T _ _ _).2 ⟨h'.2, hlg⟩⟩, hr⟩
   · rw [if_neg hc]
     cases hg : generateReplacements r.1.args mac.repl start with
     | none => exact Post_crash _ _ _
     | some g =>
       apply Post_pure
-      exact ⟨hs, (BL_cons T _ _ _).2 ⟨hact,
-        generateReplacements_BL T _ _ _ _ _ ha (macroToksOk_repl T mac hmac) hst hg⟩, hr⟩
+      exact ⟨hs, (BL_cons T _ _ _).2 ⟨hact, (BL_append T _ _ _).2
+        ⟨generateReplacements_BL T _ _ _ _ _ ha (macroToksOk_repl T mac hmac) hst hg, hlg⟩⟩, hr⟩
 
 theorem args_step (hw : T.WFInv) (nroot fuel : Nat) (IH : AllSpecs T nroot fuel) :
     SpecArgs T nroot (fuel + 1) := by
   intro buf mac start st hg hb hmac hst
   simp only [expandArguments]
   apply Post_bind _ _ _ (Q := fun r s => Good T nroot st s ∧ (∀ a ∈ r.1.args, BL T st.latex.length a) ∧
-    (∀ a ∈ r.1.extr, BL T st.latex.length a) ∧ BL T st.latex.length r.2)
+    (∀ a ∈ r.1.extr, BL T st.latex.length a) ∧ BL T st.latex.length r.2 ∧ BL T st.latex.length r.1.langs)
   · refine Post_mono _ _ _ (collectArgs_spec T hw mac mac.args 0 buf start {} st hmac hb hst
-      ⟨(by intro a ha; cases ha), (by intro a ha; cases ha)⟩) ?_
+      ⟨(by intro a ha; cases ha), (by intro a ha; cases ha)⟩ (by intro a ha; cases ha)) ?_
     intro r s h
-    exact ⟨Good_diags T nroot st s hg h.2.2.2, h.1, h.2.1, h.2.2.1⟩
+    exact ⟨Good_diags T nroot st s hg h.2.2.2.1, h.1, h.2.1, h.2.2.1, h.2.2.2.2⟩
   · intro r s h
     by_cases hc : (!mac.extract.isEmpty) = true
     · rw [if_pos hc]
@@ -381,9 +382,9 @@ theorem args_step (hw : T.WFInv) (nroot fuel : Nat) (IH : AllSpecs T nroot fuel)
             refine Good_trans T nroot _ _ _ h.1 (Good_trans T nroot _ _ _ he.1 ⟨?_, rfl, rfl⟩)
             exact G_extract T nroot s' e.1 he.1.1 (by rw [hl']; exact he.2)
           · intro _ s'' hs''
-            exact argsTail_spec T nroot fuel IH st s'' mac r start hs'' hmac h.2.1 h.2.2.2 hst
+            exact argsTail_spec T nroot fuel IH st s'' mac r start hs'' hmac h.2.1 h.2.2.2.1 hst h.2.2.2.2
     · rw [if_neg hc]
-      exact argsTail_spec T nroot fuel IH st s mac r start h.1 hmac h.2.1 h.2.2.2 hst
+      exact argsTail_spec T nroot fuel IH st s mac r start h.1 hmac h.2.1 h.2.2.2.1 hst h.2.2.2.2
 
 private theorem lastPos_lt (n start : Nat) (l : List Tok) (hl : BL T n l) (hs : start < n) :
     (Option.map (fun x => x.pos) l.getLast?).getD start < n := by
@@ -412,7 +413,7 @@ theorem item_step (hw : T.WFInv) (nroot fuel : Nat) (IH : AllSpecs T nroot fuel)
   apply Post_bind _ _ _ (Q := fun r s => Good T nroot st s ∧ BL T st.latex.length r.1 ∧ BL T st.latex.length r.2)
   · exact IH.args buf _ tok.pos st hg hb (by simp [macroToksOk, storedOk, isMathTok, ctlEmpty, mbOk]) ht.1.1
   · intro r s h
-    by_cases hc : (r.1.length == 1) = true
+    by_cases hc : (r.1.all (fun t => t.kind == .action || isLangK t)) = true
     · rw [if_pos hc]
       apply Post_get_bind
       cases his : s.itemStack with
